@@ -29,7 +29,17 @@ def run_solver(repo, which, d, solver, repeats, threshold=1e-12, max_rank=None, 
         mr = math.inf if max_rank is None else sc.atom('rho', free=True)
         sc.rho = mr
         return sc.call(f'{SLE}.mals', A, x, b, repeats=repeats, solver=solver, threshold=threshold, max_rank=mr)
-    return l2.explore(repo, body)
+    try:
+        return l2.explore(repo, body)
+    except AnalysisError as ae_:
+        # (rules that one recorded event decides are decided on the paths explored before the analysis gave up)
+        for item in list(list.__iter__(getattr(ae_, 'paths', []))) + ([(None, ae_.scenario, None, None)] if getattr(ae_, 'scenario', None) is not None else []):
+            if STRUCTURE_RULE[0] is not None:
+                STRUCTURE_RULE[0](item[1])
+        raise
+
+
+STRUCTURE_RULE = [None]
 
 
 def solved_sites(sc, result_inputs=None):
@@ -60,6 +70,14 @@ def check(repo, tier):
     run.bounds = f'orders {orders}, repeats {reps}, solver in (solve, lu), MALS threshold in (0, 1e-12), max_rank in (inf, symbolic cap); complex data'
     mods = {SLE}
     n_contr = 0
+    def structure_rule(sc_):
+        # D4: the micro system is solved as the matrix it is: a structure hint that does not describe a complex Hermitian micro matrix makes LAPACK solve another system
+        for e_ in sc_.events('solve-structure'):
+            if l2rules.in_modules(e_, mods):
+                where, cons, f_, ln = l2rules.ev_where(repo, e_, mods)
+                run.oblige('D4', (where, cons, 'structure hint'), False)
+                run.add(Finding('C07', 'D4', where, cons, f'{e_["detail"]}: for a complex Hermitian operator the micro systems are solved as if they were complex symmetric (O(1) residual, no warning)', f_, ln))
+    STRUCTURE_RULE[0] = structure_rule
     for which in ('als', 'mals'):
         seqs = {}
         for d, rep, solver in itertools.product(orders, reps, ('solve', 'lu')):
@@ -76,6 +94,7 @@ def check(repo, tier):
                 for ch, sc, res, exc in run_solver(repo, which, d, solver, rep, thr, mr, dtype=dts):
                     entry = f'{SLE}.{which}'
                     n_contr += l2rules.typing_obligations(run, 'C07', 'D1', repo, sc, scen, mods)
+                    structure_rule(sc)
                     l2rules.relative_cut_obligations(run, 'C07', 'D5', repo, sc, scen, mods)
                     # D2 stale reads (decided first: what a stale operand leads to later on the path -- a shape error, an ill-typed contraction -- is its consequence)
                     st = sc.events('stale-read') + sc.events('use-after-destroy')
